@@ -110,12 +110,42 @@ def run_env(job):
     sys.stdout.write(json.dumps({'events': events, 'desc': desc, 'news': []}))
 
 
+def run_hist(job):
+    """One history of calls of spec/Bip38Hist.tla in this (fresh) process - or the set-up of the tokens the histories use.
+    Every call is observed exactly as in the single-call scenarios of harness/c15.py."""
+    from harness import c15
+    from bitcoinlib.keys import bip38_intermediate_password
+    if 'setup' in job:
+        out = {}
+        for name, j in job['setup'].items():
+            out[name] = c15.drive_ec(dict(j, decs=[])) if j['kind'] == 'ec' else c15.drive_nonec(dict(j, decs=[], tok=None, enc_route='Key'))
+        sys.stdout.write(json.dumps({'events': out}))
+        return
+    res = []
+    for call in job['hist']:
+        if call['c'] == 'dec':
+            res.append(c15._obs_dec(call['route'], call['tok'], c15.PY(call['pw']), call['net']))
+        elif call['c'] == 'enc':
+            res.append(c15.drive_nonec(dict(call, decs=[], tok=None, enc_route='Key'))['enc'])
+        elif call['c'] == 'inter':
+            try:
+                code = bip38_intermediate_password(c15.PY(call['pw']), lot=call['lot'], sequence=call['seq'], owner_salt=bytes.fromhex(call['salt']))
+                res.append({'ok': True, 'code': code})
+            except Exception as e:
+                res.append({'ok': False, 'code': '', 'note': '%s: %s' % (type(e).__name__, str(e)[:120])})
+        else:
+            raise ValueError(call['c'])
+    sys.stdout.write(json.dumps({'events': res}))
+
+
 def main():
     job = json.loads(sys.argv[1])
     from harness import common
     common.fresh_bitcoinlib_env()
     if 'env' in job:
         return run_env(job)
+    if 'hist' in job or 'setup' in job:
+        return run_hist(job)
     from bitcoinlib.keys import Key, HDKey, bip38_intermediate_password, bip38_create_new_encrypted_wif
     pw = job['passphrase']
     net = job['network']
